@@ -46,7 +46,7 @@ CLAIMED = {
             "argument values are constants; expected bindings derived from the recorded run; a request whose resulting signature is illegal must be refused", "3/C06"),
     "C07": ("exploration",
             "bounded-exhaustive enumeration of (import block, usage pattern, target location, action, preferences) with CPython execution of the module and of a star-importing client before/after, plus idempotence",
-            "Import blocks of <=2 (3) statements over 36 forms (plain, dotted, aliased, from, multi-name, parenthesised, star, relative at two levels, __future__, a package next to an aliased import of its sub-module, two providers of one name, prefix-named modules, a chained star import, a package __init__ importing its own sub-modules) x per-statement usage (unused, module level, in a function, only in __all__, class keyword, base class, default argument, decorator, base of an assigned attribute) x target in the project root / a package / a sub-package x the 5 ImportOrganizer actions x preference sets are run through the real code; the target module and a client must print the same, and applying the action again must change nothing.",
+            "Import blocks of <=2 (3) statements over 37 forms (plain, dotted, aliased, from, multi-name, parenthesised, star, relative at two levels, __future__, a package next to an aliased import of its sub-module, two providers of one name, prefix-named modules, a chained star import, a package __init__ importing its own sub-modules) x per-statement usage (unused, module level, in a function, only in __all__, class keyword, base class, default argument, decorator, base of an assigned attribute) x target in the project root / a package / a sub-package x the 5 ImportOrganizer actions x preference sets are run through the real code; the target module and a client must print the same, and applying the action again must change nothing.",
             "library modules define uniquely valued names; re-exports are protected only when listed in __all__; bounded block size", "3/C07"),
     "C05": ("exploration",
             "bounded-exhaustive enumeration of (move/rename operation, client location, client import block) with CPython importing every module before/after",
